@@ -90,7 +90,7 @@ def weight(rng, pat, i, N, st):
 PREDS = [(0, 0), (1, 0), (2, 0), (3, 5), (4, 3)]
 
 def gen(rng, tier):
-    ncases = 260 if tier == 'quick' else 5000
+    ncases = 260 if tier == 'quick' else 3000
     cases = []
     for ci in range(ncases):
         ops = [[99, rng.randrange(1, 2 ** 32)]]
@@ -126,7 +126,9 @@ def gen(rng, tier):
                             d2b(rng.choice([0.0, -0.0, -1.0, float('nan'), float('inf'), -float('inf'), -1e-300]))])
                 tags.add('invalid-or-zero-weight')
             elif q < 0.10:
-                ops.append([3, r])
+                # the S line of a dump carries the whole ghost log: keep long thorough-tier streams affordable
+                if tier == 'quick' or N <= 150 or rng.random() < 0.1:
+                    ops.append([3, r])
             elif q < 0.13:
                 p = rng.choice(PREDS); ops.append([4, r, p[0], p[1]])
             elif q < 0.15 and nreg > 1:
